@@ -460,3 +460,38 @@ def resolve_callee(g, call, at_node):
             if r[0] == 'func':
                 return r
     return c
+
+
+def paths_under(g, N, env, enums=None, max_visits=1):
+    """the complete CFG paths that are feasible when the atoms of `env` have the given values: a condition (or switch) that can be
+    evaluated from `env` alone must have taken the matching edge; everything else is free"""
+    from . import loops
+    for path in g.paths(max_visits=max_visits):
+        ok = True
+        for (n, label) in path:
+            if n['kind'] == 'cond':
+                try:
+                    v = bool(loops.ev(N.canon(n['expr']), dict(env), unsigned=False))
+                except loops.NoEval:
+                    continue
+                if v != label:
+                    ok = False
+                    break
+            elif n['kind'] == 'switch':
+                try:
+                    v = loops.ev(N.canon(n['expr']), dict(env), unsigned=False)
+                except loops.NoEval:
+                    continue
+                cases = []
+                for (w, l) in n['succ']:
+                    if isinstance(l, tuple) and l[0] == 'case':
+                        cases.append(const_int(l[1], enums))
+                if isinstance(label, tuple) and label[0] == 'case':
+                    if const_int(label[1], enums) != v:
+                        ok = False
+                        break
+                elif v in cases:
+                    ok = False
+                    break
+        if ok:
+            yield path
